@@ -218,13 +218,18 @@ func minLen(b *ssa.BasicBlock, x ssa.Value) int64 {
 		}
 	}
 	// len(x), or len(x) ± C (signed int arithmetic on a length does not wrap): the constant moves to the other side
+	// the same collection: the same value, or two loads along one field path that this function does not store into
+	// (a record that carries the input: `len(d.quote) >= n` and then `d.quote[n:]`)
+	same := func(a ssa.Value) bool {
+		return sameColl(a, x) || (b != nil && b.Parent() != nil && sameFieldPathUnwritten(b.Parent(), a, x))
+	}
 	lenOff := func(v ssa.Value) (int64, bool) {
 		v = stripConv(v)
-		if a, ok := lenArg(v); ok && sameColl(a, x) {
+		if a, ok := lenArg(v); ok && same(a) {
 			return 0, true
 		}
 		if bo, ok := v.(*ssa.BinOp); ok && (bo.Op == token.SUB || bo.Op == token.ADD) {
-			if a, ok := lenArg(stripConv(bo.X)); ok && sameColl(a, x) {
+			if a, ok := lenArg(stripConv(bo.X)); ok && same(a) {
 				if bt, ok := bo.Type().Underlying().(*types.Basic); ok && bt.Kind() == types.Int {
 					if k, ok := constInt(bo.Y); ok {
 						if bo.Op == token.SUB {
